@@ -132,6 +132,7 @@ FILES = {
 }
 
 EDITS = [
+    ("a.oal", "é😉", "e;)"), ("a.oal", "😉", "é"), ("main.oal", "use \"a.oal\" as m;", "use \"a.oal\" as m; // prix en € du café"), ("main.oal", "€ du café", "EUR"),
     # (file, find, replace): applied as incremental changes computed by the client
     ("main.oal", "m.x", "m.y"),
     ("main.oal", "<t>", "<t> :: <status=404, m.x>"),
@@ -220,7 +221,10 @@ def real_history(ctx, idx):
                         continue
                     s = len(t[:pos].encode("utf8"))
                     en = s + len(e[1].encode("utf8"))
-                    changes.append({"range": lspws.rng_of(t, s, en), "text": e[2]})
+                    ch = {"range": lspws.rng_of(t, s, en), "text": e[2]}
+                    if rng.random() < 0.6:
+                        ch["rangeLength"] = u16len(e[1])      # the redundant (deprecated) length many clients still send
+                    changes.append(ch)
                     texts[name] = t[:pos] + e[2] + t[pos + len(e[1]):]
                     steps.append("edit %s: %r -> %r" % (name, e[1], e[2]))
                 if changes:
